@@ -120,6 +120,33 @@ func runVersions(x *Exec, prop string) {
 			c, script := c, mp.Scripts[i]
 			w.Go(c, func() { m.RunScript(c, script) })
 		}
+		if prop == "C11" {
+			// a concurrent re-reader: while the writers go on it re-opens version
+			// sets that were recorded earlier and compares with the recorded rows
+			w.Go(rd, func() {
+				for i := 0; i < 6; i++ {
+					rd.Step("reread")
+					if len(m.Views) == 0 {
+						continue
+					}
+					v := m.Views[x.Choose(len(m.Views))]
+					if len(v.Pending) > 0 || len(v.Versions) == 0 {
+						continue
+					}
+					got, err := HistoricRows(rd, "p", v.Versions, mp.AllCols())
+					x.Check()
+					if err != nil {
+						x.Fail("C11-reread-failed", "version %s (taken by %s/%s) cannot be opened while other writers commit: %v", versionsJSON(v.Versions), v.Client, v.Label, err)
+						return
+					}
+					if RowsString(got) != RowsString(v.Rows) {
+						x.Fail("C11-snapshot-changed", "version %s showed %s when taken (%s/%s) but a concurrent re-open gives %s", versionsJSON(v.Versions), RowsString(v.Rows), v.Client, v.Label, RowsString(got))
+						return
+					}
+					x.Probe("concurrent-reread")
+				}
+			})
+		}
 		w.Run()
 		w.CheckPanics()
 		if w.Viol != nil {
@@ -133,6 +160,7 @@ func runVersions(x *Exec, prop string) {
 		// final read-only reader view (merges all unmerged versions) is one more recorded snapshot
 		var rt string
 		var oerr error
+		rdOpenStart := len(w.S.Log)
 		w.Solo(rd, func() {
 			if oerr = m.OpenTable(rd, true); oerr == nil {
 				rt = m.Tables[rd.Name]
@@ -197,9 +225,10 @@ func runVersions(x *Exec, prop string) {
 			// (d): a read-only open lists exactly the versions it fetched
 			rv := m.Views[len(m.Views)-1]
 			fetched := map[string]bool{}
-			for _, e := range w.S.Log {
-				if e.Client == "rd" && e.Op == OpGet && e.Outcome == "ok" && strings.HasPrefix(e.Key, m.Lay.Current) {
-					fetched[strings.TrimPrefix(e.Key, m.Lay.Current)] = true
+			rdOpenEnd := rv.At
+			for _, e := range w.S.Log[rdOpenStart:rdOpenEnd] {
+				if e.Client == "rd" && e.Op == OpGet && e.Outcome == "ok" && (strings.HasPrefix(e.Key, m.Lay.Current) || strings.HasPrefix(e.Key, m.Lay.Merged)) {
+					fetched[strings.TrimPrefix(strings.TrimPrefix(e.Key, m.Lay.Current), m.Lay.Merged)] = true
 				}
 			}
 			var fl []string
